@@ -1,7 +1,7 @@
 #!/bin/sh
 # Run once after a fresh restore, offline: builds the driver and warms the build cache by
 # building every property's test binary from files on disk only.
-cd /verif || exit 1
+cd "$(dirname "$0")" || exit 1
 export GOFLAGS=-mod=mod GOPROXY=off GOSUMDB=off GOTOOLCHAIN=local
 mkdir -p bin evidence replays .work
 go build -o bin/check ./cmd/check || exit 1
